@@ -1,17 +1,38 @@
 import PyamgV.Driver.Util
 import PyamgV.Model.ExtC17R5Mis
+import PyamgV.Model.ExtC17R5Ops
+import PyamgV.Model.ExtGraph
 
 namespace PyamgV.Drv.ExtE46
 open PyamgV PyamgV.Drv
 
+def flag (ok : Bool) : String := if ok then ";ok" else ";fault"
+
 /-- line-protocol ops of extension E46:
-* `c13r5_mis n ap aj w maxiter` — `split.MIS(G, w, maxiter)` (`maxiter` = `-` for `None`), rational weights -/
+* `c13r5_mis n ap aj w maxiter` — `split.MIS(G, w, maxiter)` (`maxiter` = `-` for `None`), rational weights (`C17R5.misSplit`);
+* `c17r5_mis_parallel n ap aj active C F x y` — the checked model of `maximal_independent_set_parallel` with `max_iters = -1` and
+  fuel `n + 1` (theorem `misParallel_total_rat`): `x;N;ok` | `x;N;fault` | `nonterm`;
+* `c17r5_mis_k_parallel n ap aj k x y` — the checked model of `maximal_independent_set_k_parallel` with `max_iters = -1` and fuel
+  `n + 1`, and the function model `G.misK` on the same input (theorem `misKParallel_total_rat`): `x;ok;xf` | `nonterm` -/
 def handle : List String → Option String
   | ["c13r5_mis", n, ap, aj, w, mi] =>
     let S : C13.Pat := ⟨nat n, parseNats ap, parseNats aj⟩
     let wa := parseRats w
     some (if !S.valid || wa.size != S.n then "invalid-input"
       else showInts (C17R5.misSplit S wa (if mi = "-" then none else some (nat mi))))
+  | ["c17r5_mis_parallel", n, ap, aj, act, c, f, x, y] =>
+    match C17R4.misParallel C17R5.ratW (nat n) (parseInts ap) (parseInts aj) (int act) (int c) (int f) (parseInts x) (parseRats y)
+        (-1) (nat n + 1) with
+    | none => some "nonterm"
+    | some r => some <| showInts r.val.1 ++ ";" ++ toString r.val.2 ++ flag r.ok
+  | ["c17r5_mis_k_parallel", n, ap, aj, k, x, y] =>
+    let api := parseInts ap
+    let aji := parseInts aj
+    match C17R4.misKParallel C17R5.ratW (nat n) api aji (int k) (parseInts x) (parseRats y) (-1) (nat n + 1) with
+    | none => some "nonterm"
+    | some r =>
+      let fm := G.misK ⟨nat n, api.map Int.toNat, aji.map Int.toNat⟩ (int k).toNat C17R5.ratW.ofInt (parseRats y) none (nat n + 1)
+      some <| showInts r.val ++ flag r.ok ++ ";" ++ (match fm with | some xf => showInts xf | none => "nonterm")
   | _ => none
 
 end PyamgV.Drv.ExtE46
